@@ -14,6 +14,7 @@ import (
 	"fmt"
 	"math/big"
 	"os"
+	"runtime"
 	"sort"
 	"strings"
 	"time"
@@ -30,6 +31,7 @@ import (
 	authExported "github.com/pokt-network/posmint/x/auth/exported"
 	authTypes "github.com/pokt-network/posmint/x/auth/types"
 	govTypes "github.com/pokt-network/posmint/x/gov/types"
+	"github.com/pokt-network/posmint/x/pos"
 	posTypes "github.com/pokt-network/posmint/x/pos/types"
 	"verif/harness/internal/rng"
 	"verif/harness/internal/simapp"
@@ -100,6 +102,7 @@ type request struct {
 	sev   sdk.Dec
 	hdr   abci.Header
 	resA  string // consensus-relevant response of instance A
+	acl   bool   // an accepted change of gov/acl
 }
 
 type hist struct {
@@ -122,13 +125,16 @@ type hist struct {
 	// hand-overs proposed by the latest gov/acl change: (parameter, previous owner, next owner)
 	handover [][3]string
 	forced   []txSpec
+	// genesis accounts whose recorded public key is somebody else's (address -> that key)
+	foreignKey map[string]key
 }
 
 func (h *hist) modAddr(name string) sdk.Address { return authTypes.NewModuleAddress(name) }
 
 // ---------------------------------------------------------------- state dump from raw stores
-func (h *hist) dump() string {
-	app := h.app
+func (h *hist) dump() string { return dumpApp(h.app) }
+
+func dumpApp(app *simapp.App) string {
 	ms := app.Store()
 	var sb strings.Builder
 	// auth
@@ -468,7 +474,21 @@ func (h *hist) genTx(pp posTypes.Params, govOwner map[string]key, daoOwner key, 
 			return ft
 		}
 	}
-	switch c := r.Intn(20); {
+	switch c := r.Intn(21); {
+	case c == 20: // schedule an upgrade (the owner of gov/upgrade, sometimes somebody else; sometimes height 0: invalid)
+		from := h.keyOf(h.app.GK.GetACL(sdk.NewContext(h.app.Store(), abci.Header{}, false, nil)).GetOwner("gov/upgrade"), govOwner["gov/upgrade"])
+		if r.Chance(1, 4) {
+			from = k
+		}
+		// (a height no history reaches: at the upgrade height the gov module's BeginBlock interrupts the process, by design)
+		up := govTypes.NewUpgrade(h.height+int64(1000+r.Intn(100000)), fmt.Sprintf("0.%d.%d", r.Intn(5), r.Intn(10)))
+		if r.Chance(1, 6) {
+			up.Height = 0
+		}
+		raw, _ := h.app.Cdc.MarshalJSON(up)
+		t.signer, t.attached = from, &from
+		t.msg = govTypes.MsgUpgrade{Address: from.addr, Upgrade: up}
+		t.spec = fmt.Sprintf("upgrade:%s:%d:%s", hx(from.addr), up.Height, hx(raw))
 	case c < 6: // stake (a consensus key: never a multisig key)
 		for len(k.subs) > 0 {
 			k = h.pick()
@@ -553,6 +573,10 @@ func (h *hist) genTx(pp posTypes.Params, govOwner map[string]key, daoOwner key, 
 		if amt <= 0 {
 			amt = 1
 		}
+		if r.Chance(1, 12) {
+			amt = 0
+			stats["tx/basic-invalid/send"]++
+		}
 		t.msg = posTypes.MsgSend{FromAddress: k.addr, ToAddress: to.addr, Amount: sdk.NewInt(amt)}
 		t.spec = fmt.Sprintf("send:%s:%s:%d", hx(k.addr), hx(to.addr), amt)
 	case c < 18: // dao transfer / burn
@@ -580,6 +604,14 @@ func (h *hist) genTx(pp posTypes.Params, govOwner map[string]key, daoOwner key, 
 		}
 		if amt <= 0 {
 			amt = 1
+		}
+		if r.Chance(1, 8) { // statelessly invalid, everything else in order: must leave no trace (not even the fee)
+			if r.Bool() {
+				amt = 0
+			} else {
+				action, an = "dao_party", 3
+			}
+			stats["tx/basic-invalid/dao"]++
 		}
 		t.signer, t.attached = from, &from
 		t.msg = govTypes.MsgDAOTransfer{FromAddress: from.addr, ToAddress: to.addr, Amount: sdk.NewInt(amt), Action: action}
@@ -612,6 +644,12 @@ func (h *hist) genTx(pp posTypes.Params, govOwner map[string]key, daoOwner key, 
 	// the fee the current multipliers ask for (generation only; the variations below move away from it)
 	if t.msg != nil {
 		t.fee = h.app.AK.GetParams(sdk.NewContext(h.app.Store(), abci.Header{}, false, nil)).FeeMultiplier.GetFee(t.msg).Int64()
+	}
+	// the holder of a key that the genesis file recorded for ANOTHER address signs for that address, no key attached
+	if o, ok := h.foreignKey[string(t.msg.GetSigner())]; ok && r.Chance(2, 3) {
+		t.signer, t.attached = o, nil
+		stats["tx/signed-with-the-foreign-key-on-record"]++
+		return t
 	}
 	// fee / signature variations
 	switch r.Intn(24) {
@@ -715,7 +753,19 @@ func posNum(field int, f func(h *hist) int64, dur bool) func(h *hist) ([]byte, s
 	}
 }
 
+// The IAVL store's iterator feeds its consumer from a goroutine that runs one node ahead and is only told to stop by
+// Close(): after an iteration that ends early (UpdateTendermintValidators at the MaxValidators cut-off) that goroutine may
+// still be reading tree nodes when Commit prunes them ("Value missing for hash ..." panic in the background goroutine,
+// seen once in four runs under load). The driver therefore runs Go code on one processor and lets every other goroutine
+// run to its next blocking point before each Commit, so that its own runs are reproducible.
+func quiesce() {
+	for i := 0; i < 8; i++ {
+		runtime.Gosched()
+	}
+}
+
 func main() {
+	runtime.GOMAXPROCS(1)
 	seed := flag.Uint64("seed", 1, "seed")
 	n := flag.Int("n", 100, "number of histories")
 	blocks := flag.Int("blocks", 25, "max blocks per history")
@@ -727,7 +777,9 @@ func main() {
 	wo, wi := bufio.NewWriter(fo), bufio.NewWriter(fi)
 	fd, _ := os.Create(*out + "/app.det")
 	det = bufio.NewWriter(fd)
-	defer func() { wo.Flush(); wi.Flush(); det.Flush(); fo.Close(); fi.Close(); fd.Close() }()
+	fx, _ := os.Create(*out + "/app.xi")
+	xi = bufio.NewWriter(fx)
+	defer func() { wo.Flush(); wi.Flush(); det.Flush(); xi.Flush(); fo.Close(); fi.Close(); fd.Close(); fx.Close() }()
 	for i := 0; i < *n; i++ {
 		runHistory(r, i, *blocks, wo, wi)
 	}
@@ -771,6 +823,13 @@ func runHistory(r *rng.R, id, maxBlocks int, wo, wi *bufio.Writer) {
 	supply := int64(0)
 	otherSupply := int64(0)
 	nv := 1 + r.Intn(5)
+	// a quarter of the histories start with a tie in power exactly at the MaxValidators cut-off: every validator has
+	// the same power, stakes differ below the power unit, and one candidate does not fit
+	cutoffTie := r.Chance(1, 4)
+	tiePower := int64(1 + r.Intn(3))
+	if cutoffTie {
+		nv = 2 + r.Intn(4)
+	}
 	staked := int64(0)
 	type accline struct {
 		addr string
@@ -778,6 +837,7 @@ func runHistory(r *rng.R, id, maxBlocks int, wo, wi *bufio.Writer) {
 	}
 	var acclines []accline
 	var vallines []string
+	var pkof []string
 	for i, k := range h.keys {
 		bal := int64(0)
 		switch r.Intn(5) {
@@ -799,7 +859,19 @@ func runHistory(r *rng.R, id, maxBlocks int, wo, wi *bufio.Writer) {
 			accCoins = append(accCoins, sdk.NewCoin(sdk.DefaultStakeDenom, sdk.NewInt(bal)))
 		}
 		otherSupply += 100000
-		accs = append(accs, &authTypes.BaseAccount{Address: k.addr, Coins: accCoins, PubKey: k.pub})
+		rec := k.pub
+		if i >= 3 && i < nPlain && h.foreignKey == nil && r.Chance(1, 6) {
+			// the genesis file records ANOTHER key for this account (InitGenesis stores accounts verbatim): whoever
+			// holds that key must still not be able to act for this address
+			o := h.keys[(i+1+r.Intn(nPlain-1))%nPlain]
+			if !o.addr.Equals(k.addr) {
+				rec = o.pub
+				h.foreignKey = map[string]key{string(k.addr): o}
+				pkof = append(pkof, fmt.Sprintf("PKOF %s %s", hx(k.addr), hx(o.addr)))
+				stats["genesis/account-with-foreign-key"]++
+			}
+		}
+		accs = append(accs, &authTypes.BaseAccount{Address: k.addr, Coins: accCoins, PubKey: rec})
 		acclines = append(acclines, accline{hx(k.addr), bal})
 		supply += bal
 		h.pubAddr[string(k.pub.RawBytes())] = string(k.addr)
@@ -819,10 +891,20 @@ func runHistory(r *rng.R, id, maxBlocks int, wo, wi *bufio.Writer) {
 		tokens := 1000000*int64(1+r.Intn(4)) + int64(r.Intn(3))*int64(r.Intn(900000))
 		if r.Chance(1, 3) && len(vals) > 0 {
 			tokens = vals[len(vals)-1].StakedTokens.Int64() // equal powers at the cut-off
+			if r.Bool() { // ... with different stakes below the power unit
+				tokens = tokens/1000000*1000000 + int64(r.Intn(1000000))
+			}
+		}
+		if cutoffTie {
+			tokens = tiePower*1000000 + int64(r.Intn(1000000))
 		}
 		vals = append(vals, posTypes.NewValidator(k.addr, k.pub, sdk.NewInt(tokens)))
 		vallines = append(vallines, fmt.Sprintf("VAL %s %s %d", hx(k.addr), hx(k.pub.RawBytes()), tokens))
 		staked += tokens
+	}
+	if cutoffTie && len(vals) > 1 {
+		pp.MaxValidators = uint64(len(vals) - 1)
+		stats["genesis/cutoff-tie"]++
 	}
 	daoTokens := int64(r.Intn(3000000))
 	fee, pool, posm, dao := h.modAddr(auth.FeeCollectorName), h.modAddr(posTypes.StakedPoolName), h.modAddr(posTypes.ModuleName), h.modAddr(govTypes.DAOAccountName)
@@ -864,6 +946,9 @@ func runHistory(r *rng.R, id, maxBlocks int, wo, wi *bufio.Writer) {
 	fmt.Fprintf(wo, "DAO %s %d\n", hx(daoOwner.addr), daoTokens)
 	for _, a := range acclines {
 		fmt.Fprintf(wo, "ACC %s %d\n", a.addr, a.bal)
+	}
+	for _, l := range pkof {
+		fmt.Fprintln(wo, l)
 	}
 	fmt.Fprintf(wo, "SUP %d\n", supply)
 	for _, l := range vallines {
@@ -1006,6 +1091,7 @@ func runHistory(r *rng.R, id, maxBlocks int, wo, wi *bufio.Writer) {
 		var eparts []string
 		if h.height > 2 && r.Chance(1, 10) {
 			k := h.pick()
+			skipEv := false
 			// mostly evidence the application can act on (known, not unstaked, not tombstoned);
 			// anything else aborts the block (and ends the history)
 			if r.Chance(9, 10) {
@@ -1028,6 +1114,9 @@ func runHistory(r *rng.R, id, maxBlocks int, wo, wi *bufio.Writer) {
 				if len(un) > 0 && r.Chance(1, 2) {
 					k = un[0]
 				}
+				if len(cands) == 0 && r.Chance(7, 8) {
+					skipEv = true // nobody to convict: unusable evidence would only end the history here
+				}
 			}
 			evTime := h.now.Add(-time.Duration(r.Intn(int(pp.MaxEvidenceAge))))
 			if r.Chance(1, 25) {
@@ -1038,8 +1127,10 @@ func runHistory(r *rng.R, id, maxBlocks int, wo, wi *bufio.Writer) {
 			if v, ok := h.validator(k.addr); ok && r.Bool() {
 				pw = v.tokens / 1000000
 			}
-			evs = append(evs, abci.Evidence{Type: tmtypes.ABCIEvidenceTypeDuplicateVote, Validator: abci.Validator{Address: k.addr, Power: pw}, Height: evH, Time: evTime})
-			eparts = append(eparts, fmt.Sprintf("%s:%d:%d:%d", hx(k.addr), evH, evTime.UnixNano(), pw))
+			if !skipEv {
+				evs = append(evs, abci.Evidence{Type: tmtypes.ABCIEvidenceTypeDuplicateVote, Validator: abci.Validator{Address: k.addr, Power: pw}, Height: evH, Time: evTime})
+				eparts = append(eparts, fmt.Sprintf("%s:%d:%d:%d", hx(k.addr), evH, evTime.UnixNano(), pw))
+			}
 		}
 		prop := h.pick().addr
 		if len(addrs) > 0 && r.Chance(3, 4) {
@@ -1049,7 +1140,11 @@ func runHistory(r *rng.R, id, maxBlocks int, wo, wi *bufio.Writer) {
 		op := fmt.Sprintf("BB %d %d %s votes=%s ev=%s", h.height, h.now.UnixNano(), hx(prop), strings.Join(vparts, ","), strings.Join(eparts, ","))
 		bbReq := abci.RequestBeginBlock{Header: hdr, LastCommitInfo: abci.LastCommitInfo{Votes: votes}, ByzantineValidators: evs}
 		var bbRes abci.ResponseBeginBlock
-		if try(func() { bbRes = h.app.BeginBlock(bbReq) }) {
+		if m := tryMsg(func() { bbRes = h.app.BeginBlock(bbReq) }); m != "" {
+			if len(m) > 60 {
+				m = m[:60]
+			}
+			stats["abort/"+m]++
 			h.reqs = append(h.reqs, request{kind: "BB", bb: bbReq, hdr: hdr, resA: "ABORT"})
 			h.emitDead(op)
 			break
@@ -1100,7 +1195,7 @@ func runHistory(r *rng.R, id, maxBlocks int, wo, wi *bufio.Writer) {
 			if res.Code != 0 {
 				rs = "err"
 			}
-			h.reqs = append(h.reqs, request{kind: "TX", tx: bz, resA: deliverString(res)})
+			h.reqs = append(h.reqs, request{kind: "TX", tx: bz, resA: deliverString(res), acl: res.Code == 0 && strings.Contains(t.spec, ":acl:")})
 			stats[fmt.Sprintf("tx/%s/%s:%d", strings.SplitN(t.spec, ":", 2)[0], res.Codespace, res.Code)]++
 			// right after an accepted hand-over, in the same block: the previous owner must be refused, the next one accepted
 			if res.Code == 0 && strings.Contains(t.spec, ":acl:") && len(h.handover) > 0 && r.Chance(4, 5) {
@@ -1142,6 +1237,7 @@ func runHistory(r *rng.R, id, maxBlocks int, wo, wi *bufio.Writer) {
 		h.sets[h.height+2] = copySet(h.tm)
 		h.emit("EB", updatesString(eb.ValidatorUpdates))
 		var cm abci.ResponseCommit
+		quiesce()
 		if try(func() { cm = h.app.Commit() }) {
 			h.emitDead("CM")
 			break
@@ -1150,9 +1246,11 @@ func runHistory(r *rng.R, id, maxBlocks int, wo, wi *bufio.Writer) {
 		committed = true
 		h.emit("CM", "ok")
 	}
-	_ = committed
 	_ = big.NewInt
 	fmt.Fprintln(wo, "E")
+	if committed {
+		h.exportImport()
+	}
 	// ---- C01: the same request sequence on other instances
 	if det != nil {
 		for _, variant := range []string{"fresh", "restart", "interleaved"} {
@@ -1175,7 +1273,115 @@ func runHistory(r *rng.R, id, maxBlocks int, wo, wi *bufio.Writer) {
 	}
 }
 
-var det *bufio.Writer
+var det, xi *bufio.Writer
+
+func tryMsg(f func()) (msg string) {
+	defer func() {
+		if r := recover(); r != nil {
+			msg = strings.ReplaceAll(strings.ReplaceAll(fmt.Sprint(r), " ", "_"), "\n", "_")
+			if len(msg) > 300 {
+				msg = msg[:300]
+			}
+			if msg == "" {
+				msg = "panic"
+			}
+		}
+	}()
+	f()
+	return ""
+}
+
+// exportImport: the state after the last Commit is exported with every module's ExportGenesis, written and read back as
+// JSON (as a genesis file would be), and a fresh application is initialised from it (pos, auth, gov: auth's InitGenesis
+// derives the supply from the accounts the others created). One line in app.xi:
+//   <id> ok PRE <dump> POST <dump> UPS <updates>     |   <id> export-panic:<msg>   |   <id> import-panic:<msg> PRE <dump>
+func (h *hist) exportImport() {
+	if xi == nil || h.dead {
+		return
+	}
+	pre := h.dump()
+	ctx := sdk.NewContext(h.app.Store(), abci.Header{ChainID: simapp.ChainID, Height: h.height, Time: h.now}, false, log.NewNopLogger())
+	var ga authTypes.GenesisState
+	var gp posTypes.GenesisState
+	var gg govTypes.GenesisState
+	if m := tryMsg(func() {
+		ga = auth.ExportGenesis(ctx, h.app.AK)
+		gp = pos.ExportGenesis(ctx, h.app.PK)
+		gg = h.app.GK.ExportGenesis(ctx)
+	}); m != "" {
+		fmt.Fprintf(xi, "%d export-panic:%s\n", h.id, m)
+		stats["xi/export-panic"]++
+		return
+	}
+	if err := gg.Params.ACL.Validate(h.app.GK.GetAllParamNames(ctx)); err != nil {
+		// gov's InitGenesis exits the process on an access-control list that does not cover every parameter
+		stats["xi/skipped-acl-incomplete"]++
+		return
+	}
+	var ga2 authTypes.GenesisState
+	var gp2 posTypes.GenesisState
+	var gg2 govTypes.GenesisState
+	if m := tryMsg(func() {
+		cdc := h.app.Cdc
+		cdc.MustUnmarshalJSON(cdc.MustMarshalJSON(ga), &ga2)
+		cdc.MustUnmarshalJSON(cdc.MustMarshalJSON(gp), &gp2)
+		cdc.MustUnmarshalJSON(cdc.MustMarshalJSON(gg), &gg2)
+	}); m != "" {
+		fmt.Fprintf(xi, "%d json-panic:%s\n", h.id, m)
+		stats["xi/json-panic"]++
+		return
+	}
+	// InitGenesis refuses unstaked validators ("we shouldn't have unstaked validators in the genesis file"): the operator's
+	// step of removing the force-unstaked, zero-stake records from the exported file is done here
+	var keep posTypes.Validators
+	for _, v := range gp2.Validators {
+		if v.Status != sdk.Unstaked {
+			keep = append(keep, v)
+		} else {
+			stats["xi/unstaked-records-dropped"]++
+		}
+	}
+	gp2.Validators = keep
+	gen2 := &simapp.Genesis{Auth: ga2, Pos: gp2, Gov: gg2, PosFirst: true}
+	app2 := simapp.New(dbm.NewMemDB(), "tcp://127.0.0.1:1", gen2)
+	var res abci.ResponseInitChain
+	if m := tryMsg(func() {
+		res = app2.InitChain(abci.RequestInitChain{ChainId: simapp.ChainID, Time: h.now})
+	}); m != "" {
+		fmt.Fprintf(xi, "%d import-panic:%s PRE %s\n", h.id, m, pre)
+		stats["xi/import-panic"]++
+		return
+	}
+	post := dumpApp(app2)
+	// accounts that never signed have no public key on record
+	var nopub []string
+	h.app.AK.IterateAccounts(ctx, func(acc authExported.Account) bool {
+		if acc.GetPubKey() == nil {
+			nopub = append(nopub, hx(acc.GetAddress()))
+		}
+		return false
+	})
+	// C01: a second node initialised from the same file must arrive at the same application hash
+	hashes := []string{"?", "?"}
+	for i, a := range []*simapp.App{app2, simapp.New(dbm.NewMemDB(), "tcp://127.0.0.1:1", gen2)} {
+		a := a
+		if m := tryMsg(func() {
+			if i == 1 {
+				a.InitChain(abci.RequestInitChain{ChainId: simapp.ChainID, Time: h.now})
+			}
+			hdr := abci.Header{ChainID: simapp.ChainID, Height: 1, Time: h.now}
+			a.BeginBlock(abci.RequestBeginBlock{Header: hdr})
+			a.EndBlock(abci.RequestEndBlock{Height: 1})
+			quiesce()
+			hashes[i] = hx(a.Commit().Data)
+		}); m != "" {
+			hashes[i] = "panic:" + m
+		}
+	}
+	fmt.Fprintf(xi, "%d ok PRE %s POST %s UPS %s TM %s NOPUB %s HASHES %s %s\n", h.id, pre, post, updatesString(res.Validators), h.tmString(),
+		strings.Join(nopub, ","), hashes[0], hashes[1])
+	stats["xi/ok"]++
+}
 
 func eventsString(evs []abci.Event) string {
 	js, _ := json.Marshal(evs)
@@ -1215,7 +1421,12 @@ func (h *hist) replay(variant string, cp *abci.ConsensusParams, ref []string) (s
 			return
 		}
 		try(func() {
-			switch rr.Intn(4) {
+			switch rr.Intn(6) {
+			case 4:
+				app.Query(abci.RequestQuery{Path: "/custom/gov/" + []string{"acl", "daoOwner", "upgrade", "dao"}[rr.Intn(4)]})
+			case 5:
+				app.Query(abci.RequestQuery{Path: "/custom/pos/" + []string{"parameters", "staked_validators", "signingInfos", "stakedPool"}[rr.Intn(4)], Data: []byte("{}"),
+					Height: []int64{0, 1, app.LastBlockHeight()}[rr.Intn(3)]})
 			case 0:
 				if len(txs) > 0 {
 					app.CheckTx(abci.RequestCheckTx{Tx: txs[rr.Intn(len(txs))]})
@@ -1232,6 +1443,10 @@ func (h *hist) replay(variant string, cp *abci.ConsensusParams, ref []string) (s
 		})
 	}
 	for i, q := range h.reqs {
+		if variant == "interleaved" && i > 0 && h.reqs[i-1].acl {
+			// right after a hand-over, before anything else looks at the list: a reader asks for it (at the committed height)
+			try(func() { app.Query(abci.RequestQuery{Path: "/custom/gov/acl"}) })
+		}
 		noise()
 		got := ""
 		switch q.kind {
@@ -1273,6 +1488,7 @@ func (h *hist) replay(variant string, cp *abci.ConsensusParams, ref []string) (s
 			}
 		case "CM":
 			var res abci.ResponseCommit
+			quiesce()
 			if try(func() { res = app.Commit() }) {
 				got = "ABORT"
 			} else {
